@@ -104,8 +104,8 @@ def run(eng: Engine, ck: Check):
     sa = single_assignments(tt)
     c = eng.cfg(tt)
     pf = [n for n in walk_local(tt.node) if isinstance(n, ast.Assign) and unparse(n.targets[0]) == PREV]
-    op = [x for x in calls_in(tt.node) if unparse(x.func) == 'request.operation']
-    ok = len(pf) == 1 and len(op) == 1 and unparse(pf[0].value) == FLAGS and unparse(op[0].args[0]) == 'request.flag'
+    op = [x for x in calls_in(tt.node) if unparse(x.func) == f'{REQ}.operation']
+    ok = len(pf) == 1 and len(op) == 1 and unparse(pf[0].value) == FLAGS and unparse(op[0].args[0]) == f'{REQ}.flag'
     if ok:
         pn, on = c.nodes_for(pf[0])[0], c.nodes_for(op[0])[0]
         ok = pn in c.dominators()[on] and c.suspension_between(pn, on) is None
@@ -135,13 +135,13 @@ def run(eng: Engine, ck: Check):
         v = r.value
         first = unparse(v.elts[0]) if isinstance(v, ast.Tuple) else unparse(v)
         hs = [handler_type_names(h) for h in eng.handler_context(rt, r)]
-        gs = [(unparse(e), pol) for e, pol, _ in eng.guards_at(rt, r)]
+        gs = [('<response>.exists' if isinstance(e, ast.Attribute) and e.attr == 'exists' else unparse(e), pol) for e, pol, _ in eng.guards_at(rt, r)]
         rows.append((first, hs, gs))
     ok_rows = {
         'send failure': any(f == 'RETRY_TIMEOUT_NET_ERROR' and h and 'Exception' in h[0] for f, h, g in rows),
         'timeout': any(f == 'RETRY_TIMEOUT_NET_ERROR' and h and 'TimeoutError' in h[0] for f, h, g in rows),
-        'unknown user': any(f == 'RETRY_TIMEOUT_NON_EXISTING_USER' and ('response.exists', False) in g for f, h, g in rows),
-        'confirmed': any(f == 'None' and not h and ('response.exists', True) in g for f, h, g in rows),
+        'unknown user': any(f == 'RETRY_TIMEOUT_NON_EXISTING_USER' and ('<response>.exists', False) in g for f, h, g in rows),
+        'confirmed': any(f == 'None' and not h and ('<response>.exists', True) in g for f, h, g in rows),
     }
     for k, v in ok_rows.items():
         ck.ob('R-C15-EDGES', rt, rt.node, f'_request_tracking outcome "{k}" yields the documented retry delay (None only when the server confirmed the user)',
@@ -149,15 +149,18 @@ def run(eng: Engine, ck: Check):
     nones = [r for r in rows if r[0] == 'None']
     ck.ob('R-C15-EDGES', rt, rt.node, 'no other path reports success', len(nones) == 1, f'{nones}', construct='single success row')
     sts = calls_on(tt.node, '_set_tracking_state')
+    rq_ = [n for n in walk_local(tt.node) if isinstance(n, ast.Assign) and isinstance(n.targets[0], ast.Tuple) and
+           any(call_name(y) == '_request_tracking' for y in ast.walk(n.value))]
+    RTO = unparse(rq_[0].targets[0].elts[0]) if len(rq_) == 1 else 'retry_timeout'       # the local that receives the retry delay of the attempt
     for x in sts:
         st = enum_member(x.args[1]) if len(x.args) > 1 else None
         gs = eng.guards_at(tt, x)
         if st == 'TRACKED':
-            ok = any((not pol) and unparse(e) == 'retry_timeout' for e, pol, _ in gs)
+            ok = any((not pol) and unparse(e) == RTO for e, pol, _ in gs)
             ck.ob('R-C15-EDGES', tt, x, 'state TRACKED is reported only when the attempt succeeded (no retry delay returned)', ok, f'{[(unparse(e), p) for e, p, _ in gs]}',
                   construct='TRACKED iff confirmed')
         if st == 'RETRY_PENDING':
-            ok = any(pol and unparse(e) == 'retry_timeout' for e, pol, _ in gs) and unparse(kw(x, 'retry_timeout')) == 'retry_timeout'
+            ok = any(pol and unparse(e) == RTO for e, pol, _ in gs) and unparse(kw(x, 'retry_timeout')) == RTO
             ck.ob('R-C15-EDGES', tt, x, 'a failed attempt reports RETRY_PENDING and arms the retry with the delay of that outcome', ok, '', construct='RETRY_PENDING with delay')
         if st == 'UNTRACKED':
             ok = any((not pol) and flag_zero_test(e, PREV) for e, pol, _ in gs)
